@@ -891,6 +891,25 @@ pub fn pr_program(prog: &Program) -> String {
     out
 }
 
+/// body of a user function with its parameters replaced by the call's arguments
+fn inline_call(body: &E, args: &[E], named: &[(String, i64)]) -> R<E> {
+    Ok(match body {
+        E::Col(k) => match args.get(*k) {
+            Some(a) => a.clone(),
+            None => E::Int(named.get(*k - args.len()).map(|n| n.1).ok_or_else(|| Undecided("parameter index".into()))?),
+        },
+        E::Int(_) | E::Null => body.clone(),
+        E::IsNull(x) => E::IsNull(Box::new(inline_call(x, args, named)?)),
+        E::Bin(op, l, r) => E::bin(*op, inline_call(l, args, named)?, inline_call(r, args, named)?),
+        E::Win(w, None) => E::Win(*w, None),
+        E::Win(w, Some(k)) => match args.get(*k) {
+            Some(E::Col(i)) => E::Win(*w, Some(*i)),
+            _ => return Err(Undecided("window function over a computed argument".into())),
+        },
+        E::Call(j, a) => E::Call(*j, a.iter().map(|x| inline_call(x, args, named)).collect::<R<_>>()?),
+    })
+}
+
 // ------------------------------------------------------------------ reference interpreter
 
 #[derive(Clone, Debug)]
@@ -1021,6 +1040,13 @@ impl<'a> Interp<'a> {
                 let a = self.eval(l, row, seg)?;
                 let b = self.eval(r, row, seg)?;
                 bin(*op, &a, &b)?
+            }
+            E::Call(i, args) if self.prog.funcs[*i].body.has_win() => {
+                // a function whose body applies a window / aggregation function to its parameter: the call means
+                // the body with the argument columns substituted, evaluated over the caller's segment
+                let f = &self.prog.funcs[*i];
+                let inl = inline_call(&f.body, args, &f.named)?;
+                self.eval(&inl, row, seg)?
             }
             E::Call(i, args) => {
                 let f = &self.prog.funcs[*i];
